@@ -244,4 +244,33 @@ Ext == <<
    E("fnstcw word ptr [ebx]", X87 \cup {"ebx"}, {"mem[ebx]"}, {}),
    E("fldcw word ptr [ebx]", {"ebx", "mem[ebx]"}, X87, {})
 >>
+\* ---- memory cells an instance can touch: <<name, address, bytes>> ---------------------
+Cells(i, s) ==
+   LET n == i.w \div 8
+       esp == s.reg[ESP]
+       opcell(j) ==
+          LET o == i.ops[j] IN
+          IF i.mn \in BitMn /\ i.ops[2].k = "reg" THEN <<CellOf(AddrIdx(o) \cup {RegIdx(i.ops[2])}), BitAddr(i, s), n>>
+          ELSE IF i.mn = "pop" THEN <<CellOf(AddrIdx(o)), EAOf(o, RegWrite(s.reg, "r32", 4, Add(esp, Const(n), 32))), n>>
+          ELSE <<CellOf(AddrIdx(o)), EA(o, s), IF i.mn \in {"movzx", "movsx"} THEN i.sw \div 8 ELSE IF i.mn = "setcc" THEN 1 ELSE n>>
+       ops == {opcell(j) : j \in {j \in 1..Len(i.ops) : i.ops[j].k = "mem"} \ (IF i.mn = "lea" THEN {2} ELSE {})}
+       str == IF i.mn \in {"movs", "cmps", "lods"} THEN {<<"mem[esi]", s.reg[ESI], n>>} ELSE {}
+       std == IF i.mn \in {"movs", "cmps", "scas", "stos"} THEN {<<"mem[edi]", s.reg[EDI], n>>} ELSE {}
+       oth == IF i.mn = "leave" THEN {<<"mem[ebp]", s.reg[EBP], 4>>}
+              ELSE IF i.mn = "xlat" THEN {<<"mem[eax,ebx]", Add(s.reg[EBX], ZExt(<<s.reg[EAX][1]>>, 32), 32), 1>>} ELSE {}
+       stk == IF i.mn \in {"push", "call", "pushad", "enter"} THEN {<<"mem[esp]", Sub(esp, Const(32), 32), 32>>}
+              ELSE IF i.mn \in {"pop", "ret"} THEN {<<"mem[esp]", esp, n>>}
+              ELSE IF i.mn = "popad" THEN {<<"mem[esp]", esp, 8 * n>>} ELSE {}
+   IN ops \cup str \cup std \cup stk \cup oth
+InCell(c, a) == Ult(Sub(a, c[2], 32), Const(c[3]))        \* address a within [c.addr, c.addr + n)
+
+\* ---- probes ----------------------------------------------------------------------------------
+FlagSet(fl, k, v) == CASE k = 1 -> [fl EXCEPT !.cf = v] [] k = 2 -> [fl EXCEPT !.pf = v] [] k = 3 -> [fl EXCEPT !.af = v] [] k = 4 -> [fl EXCEPT !.zf = v]
+                       [] k = 5 -> [fl EXCEPT !.sf = v] [] k = 6 -> [fl EXCEPT !.df = v] [] k = 7 -> [fl EXCEPT !.of = v]
+FlagAt(fl, k) == CASE k = 1 -> fl.cf [] k = 2 -> fl.pf [] k = 3 -> fl.af [] k = 4 -> fl.zf [] k = 5 -> fl.sf [] k = 6 -> fl.df [] k = 7 -> fl.of
+\* results of two steps differ, not counting a register / flag `skipR` / `skipF` that is merely carried over
+Differ(p, q, skipR, skipF) ==
+   \/ p.fault # q.fault \/ p.eip # q.eip \/ p.taken # q.taken \/ p.wr # q.wr \/ p.um # q.um \/ p.ur # q.ur
+   \/ \E r \in (1..8) \ {skipR} : p.reg[r] # q.reg[r]
+   \/ \E f \in (1..7) \ {skipF} : FlagAt(p.fl, f) # FlagAt(q.fl, f)
 =============================================================================
